@@ -414,6 +414,12 @@ func validClass(tag string) string {
 			return strings.Join(p[:4], ":")
 		}
 	}
+	if strings.HasPrefix(tag, "family:names:") {
+		// family:names:<fn|loc|loc2|sub|meta>:... -> the dimension
+		if p := strings.SplitN(tag, ":", 4); len(p) >= 3 {
+			return strings.Join(p[:3], ":")
+		}
+	}
 	if strings.HasPrefix(tag, "family:dead:") {
 		return "family:dead-code"
 	}
@@ -601,6 +607,18 @@ func (c *childState) executeUnit(ci int, es *evalState, u execUnit, res *chunkRe
 		return
 	}
 	cms := [2]wazero.CompiledModule{u.cmI, u.cmC}
+	// lazy consumers, order A: everything the compiled module publishes is read before anything else is done
+	// with it (function definitions are built on first use from the never-validated name section)
+	res.Outcomes["lazy:definitions-probed"]++
+	for e := 0; e < 2; e++ {
+		if bad := c.h.probeDefs(e, cms[e]); len(bad) > 0 {
+			for _, msg := range bad {
+				c.addViol(res, "lazy-consumer:"+normalize(msg, 160), fmt.Sprintf("a lazy consumer of an accepted module failed (%s): %s", featureSets[f].Name, msg), in, f)
+			}
+			res.Outcomes["lazy:failure"]++
+			return // the module's lazily built state is undefined after a panic
+		}
+	}
 	if in.Valid {
 		// the signatures a compiled valid module publishes must be the declared ones (read by the own walker)
 		if want, ok := exportSigs(in.B); ok {
@@ -669,6 +687,19 @@ func (c *childState) executeUnit(ci int, es *evalState, u execUnit, res *chunkRe
 			}
 			if got != "" {
 				c.addViol(res, "wrong-result:"+engName[e]+":"+validClass(in.Tag), fmt.Sprintf("f() of a by-construction-valid module must return %d, %s: %s (%s)", in.ExpectV, engName[e], got, featureSets[f].Name), in, f)
+			}
+		}
+	}
+	if strings.HasPrefix(in.Tag, "family:names:") && in.Valid {
+		// lazy consumers, orders B (trap first) and C (function listener) in fresh runtimes
+		for e := 0; e < 2; e++ {
+			c.prog.set(ci, es.k, f, phaseExec, e)
+			bad, steps := c.h.lazyOrders(e, f, in.B, wellFormedFnMap(in.Tag), in.Tag)
+			res.Outcomes["lazy:orders-run"] += 2
+			res.Outcomes["lazy:steps"] += int64(steps)
+			for _, msg := range bad {
+				c.addViol(res, "lazy-consumer:"+normalize(msg, 160), fmt.Sprintf("a lazy consumer of an accepted module failed (%s): %s", featureSets[f].Name, msg), in, f)
+				res.Outcomes["lazy:failure"]++
 			}
 		}
 	}
